@@ -72,7 +72,7 @@ type Context struct {
 	ValidateArrayDataFunc  func(data []byte)
 
 	// Marker/Reference
-	markerID               string
+	markerIDs              []string
 	markedObjects          map[interface{}]DataType
 	forwardLocalReferences map[interface{}]DataType
 	LocalReferenceCount    uint64
@@ -89,6 +89,7 @@ func (_this *Context) Reset() {
 	_this.objectCount = 0
 	_this.containerDepth = 0
 	_this.LocalReferenceCount = 0
+	_this.markerIDs = _this.markerIDs[:0]
 	_this.stack = _this.stack[:0]
 	_this.recordTypes = make(map[string]int)
 	if _this.markedObjects == nil || len(_this.markedObjects) > 0 {
@@ -315,12 +316,12 @@ func (_this *Context) BeginNode() {
 }
 
 func (_this *Context) BeginMarkerKeyable(id []byte, dataType DataType) {
-	_this.markerID = string(id)
+	_this.markerIDs = append(_this.markerIDs, string(id))
 	_this.stackRule(&markedObjectKeyableRule, dataType, noObjectCount)
 }
 
 func (_this *Context) BeginMarkerAnyType(id []byte, dataType DataType) {
-	_this.markerID = string(id)
+	_this.markerIDs = append(_this.markerIDs, string(id))
 	_this.stackRule(&markedObjectAnyTypeRule, dataType, noObjectCount)
 }
 
@@ -348,12 +349,16 @@ func (_this *Context) EndDocument() {
 }
 
 func (_this *Context) MarkObject(dataType DataType) {
+	// Markers nest (a marked container may contain marked objects), so the ID
+	// belonging to the object that just completed is the innermost pending one.
+	id := _this.markerIDs[len(_this.markerIDs)-1]
+	_this.markerIDs = _this.markerIDs[:len(_this.markerIDs)-1]
+
 	newLocalReferenceCount := _this.LocalReferenceCount + 1
 	if newLocalReferenceCount > _this.config.Rules.MaxLocalReferenceCount {
 		panic(fmt.Errorf("too many marked objects (%d). Max is %d", newLocalReferenceCount, _this.config.Rules.MaxLocalReferenceCount))
 	}
 
-	id := _this.markerID
 	if _, exists := _this.markedObjects[id]; exists {
 		panic(fmt.Errorf("marker ID [%v] already exists", id))
 	}
